@@ -319,7 +319,7 @@ func proofListVerifyRule(P *Program, R *Report) {
 	fa := &ForAll{P: P, Spec: ForAllSpec{
 		Coll: is("arg#0"),
 		Body: func(f *ssa.Function, l *Loop) *MustPass {
-			return &MustPass{NoInterproc: true, Match: func(a Atom) bool {
+			return &MustPass{Match: func(a Atom) bool {
 				if a.Want != True {
 					return false
 				}
@@ -358,7 +358,7 @@ func proofListVerifyRule(P *Program, R *Report) {
 	var collector *ssa.Function = fn
 	if call != nil {
 		collector = staticCallee(call)
-		mp(P, R, rule, kListVerify+":contrib-error", "accept => collecting the contributions returned no error", fn, AcceptTrue(0), &MustPass{NoInterproc: true, Match: func(a Atom) bool {
+		mp(P, R, rule, kListVerify+":contrib-error", "accept => collecting the contributions returned no error", fn, AcceptTrue(0), &MustPass{Match: func(a Atom) bool {
 			c, _ := callAndResult(a.V)
 			return c == call && a.Want == Nil
 		}})
@@ -369,7 +369,7 @@ func proofListVerifyRule(P *Program, R *Report) {
 			acc = AcceptNilErr(1)
 		}
 		fa2 := &ForAll{P: P, Spec: ForAllSpec{Coll: is("arg#0"), Body: func(f *ssa.Function, l *Loop) *MustPass {
-			return &MustPass{NoInterproc: true, Match: func(a Atom) bool {
+			return &MustPass{Match: func(a Atom) bool {
 				c, idx := callAndResult(a.V)
 				return c != nil && a.Want == Nil && idx == 1 && c.Call.IsInvoke() && c.Call.Method.Name() == "ChallengeContribution"
 			}}
